@@ -67,7 +67,7 @@ class C10(MsgProp):
                     else:
                         Cn = list(reversed(full))
                     cases.append((list(Sn), list(Gn), Cn, "order:" + order))
-            for inv in ("sat0", "sat65", "cellsat0", "cellsat0", "badsig", "badsig", "badsig", "badsig", "dupsat", "dupcell", "mismatch-extra-sat", "mismatch-extra-cell", "cells65",
+            for inv in ("sat0", "sat65", "cellsat0", "cellsat0", "badsig", "badsig", "badsig", "badsig", "dupsat", "dupcell", "dupcell64", "dupcell64", "dupcell65", "gridx4", "mismatch-extra-sat", "mismatch-extra-cell", "cells65",
                         "only-sats", "only-cells"):
                 cases.append((None, None, None, inv))
             for S, G, C, inv in cases:
@@ -134,7 +134,8 @@ class C10(MsgProp):
         return out
 
     EXPECTED = {"sat0": "InvalidSatelliteId", "sat65": "InvalidSatelliteId", "cellsat0": "InvalidSatelliteId", "badsig": "InvalidSignalId",
-                "dupsat": "DuplicateSatellite", "dupcell": "DuplicateSatelliteSignal",
+                "dupsat": "DuplicateSatellite", "dupcell": "DuplicateSatelliteSignal", "dupcell64": "DuplicateSatelliteSignal",
+                "dupcell65": None, "gridx4": "DuplicateSatelliteSignal",
                 "mismatch-extra-sat": "SatelliteMismatch", "mismatch-extra-cell": "SatelliteMismatch",
                 "cells65": "InvalidSatelliteSignalCount", "only-sats": "SatelliteMismatch", "only-cells": "SatelliteMismatch"}
 
@@ -150,7 +151,11 @@ class C10(MsgProp):
             decs, meta = [], []
             for (n, op, S, G, C, ids, inv, group), a in zip(self.plan, ans):
                 if inv is not None:
-                    if a != "ERR " + self.EXPECTED[inv]:
+                    if self.EXPECTED[inv] is None:
+                        # more than 64 rows: no MSM value holds them (the harness cannot build it) or any error
+                        if not (a.startswith("ERR") or a == "BAD-OP"):
+                            fails += 1; self.fail(ctx, op, prof, f"invalid input ({inv}) answered {a[:60]}")
+                    elif a != "ERR " + self.EXPECTED[inv]:
                         fails += 1; self.fail(ctx, op, prof, f"invalid input ({inv}) answered {a[:60]}, expected ERR {self.EXPECTED[inv]}")
                     continue
                 if a.startswith("ERR") or a in ("PANIC", "BAD-OP", "CRASH", "HANG"):
